@@ -204,9 +204,6 @@ def run_sponge(env, sh):
     parts = [env.bytes('m%d' % i, n) for i, n in enumerate(sh['segs'])]
     msg = env.P.concat(*parts) if parts else env.P.const(b"")
     total_out = sum(sh['reads'])
-    if not env.sym:
-        ref = _hashlib_sponge(cap, rounds, padding, bytes(msg), total_out)
-        env.assume(ref is not None)
     slot = K.ptr_slot()
     r = K.call('keccak_init', slot, cap, rounds)
     legal = cap < 200 and rounds in (12, 24)
@@ -218,8 +215,12 @@ def run_sponge(env, sh):
     st = K.deref(slot)
     for i, part in enumerate(parts):
         env.check(K.call('keccak_absorb', st, K.buf(part, False, 'm%d' % i), len(part)) == 0, 'absorb succeeds')
-    if env.sym:
-        ref = _ref_sponge(env, cap, rounds, padding, msg, total_out)
+    ref = _ref_sponge(env, cap, rounds, padding, msg, total_out)
+    if not env.sym:
+        # concrete mode: the reference runs a pure-Python Keccak-p (vlib/env.py); cross-checked with hashlib where a
+        # standard instance exists
+        hl = _hashlib_sponge(cap, rounds, padding, bytes(msg), total_out)
+        assert hl is None or hl == bytes(ref), "reference sponge disagrees with hashlib"
     if sh.get('digest'):
         n = sh['reads'][0]
         out = K.out(n, 'digest')
@@ -251,8 +252,7 @@ def run_sponge(env, sh):
         env.check(K.call('keccak_reset', st) == 0, 'reset succeeds')
         out = K.out(8, 'after_reset')
         K.call('keccak_squeeze', st, out, 8, padding)
-        if env.sym:
-            env.check(K.read(out, 8) == _ref_sponge(env, cap, rounds, padding, env.P.const(b""), 8), 'reset returns to the empty-message state')
+        env.check(K.read(out, 8) == _ref_sponge(env, cap, rounds, padding, env.P.const(b""), 8), 'reset returns to the empty-message state')
     K.check_frame(('digest', 'out', 'pResult', 'after_reset'))
     K.call('keccak_destroy', st)
     K.check_memory_safe()
